@@ -227,6 +227,8 @@ type c12Claim struct {
 	fused uint64
 	diff  uint64
 	nonce [8]byte
+	// what the sender writes into the fields outside the hash (0 = leaves them empty, like a wallet)
+	declBase, declTotal uint64
 }
 
 // c12Classify: block kind and base cost from the block alone.
@@ -279,6 +281,7 @@ func (w *c12World) offer(st *c12State, op c12Op, cl c12Claim, path string) (bool
 		b.Amount = new(big.Int).Set(op.amount)
 	}
 	b.Nonce.Data = cl.nonce
+	b.BasePlasma, b.TotalPlasma = cl.declBase, cl.declTotal
 
 	// ---- reference, before the node sees the block
 	label, base, known := c12Classify(b)
